@@ -187,4 +187,17 @@ PROPS = {
         "assumptions": [],
         "design_ref": "DESIGN.md §3.6, §3.21, §4 C12",
     },
+    "C03": {
+        "rules": ["FRONTPIPE", "OBLIG", "BOUNDFORM", "WINALIAS@bounds", "EXH", "TRAV@C03"],
+        "thorough": [],
+        "technique": "static analysis: ordered must-call pipeline at definition time, per-statement-kind obligation table for the bounds checker, formula-shape patterns (0 <= i < dim, 0 < size, 0 <= hi-lo), alias-closure of bounds effects",
+        "level_text": "Structural clauses: every parsed procedure passes TypeChecker -> CheckBounds -> Check_Aliasing unconditionally, on the same object, and recorded errors raise; "
+        "per statement kind the bounds checker issues the obligations of the property (trip count before the loop assumption, positive allocation/argument sizes, accesses vs. shapes, "
+        "call shapes, callee assertions under substitution, callee effects folded in, branch conditions); the proved formulas have the property's own shape and a failed proof is reported; "
+        "read, write and reduce effects through windows are translated to the underlying buffer; dispatches are exhaustive. Does not decide the SMT encoding of / and % or of strides.",
+        "level_note": "Trusted: pysmt's is_valid/is_sat; ADT text. Patterns use metavariables (robust to renaming locals).",
+        "explanation": "FRONTPIPE on Procedure.__init__; OBLIG on CheckBounds.map_stmts/__init__ per constructor case; BOUNDFORM on check_* helpers (relations normalised to < / <=); WINALIAS(bounds); EXH on typechecker and bounds dispatches; TRAV on _Check_Aliasing_Helper.",
+        "assumptions": [],
+        "design_ref": "DESIGN.md §3.15, §4 C03",
+    },
 }
